@@ -183,6 +183,8 @@ def Skeleton.pinned : Skeleton where
   panicSitesCanonical := true
   ucResultsUntouched := true
   clFreeNeverWaits := true
+  clStoresCreatedClosure := true
+  clConvertsEveryArg := true
   ioWrappersNonBlocking := true
   errBranchesHandled := true
   locksBalanced := true
